@@ -17,11 +17,14 @@ from vf import common, htf, progs
 
 PID = 'C09'
 TS_MODES = ['none', 'dut', 'lambda', 'raise']
-X_MODES = ['ok', 'fail', 'raise', 'hang', 'skip', 'plugfail', 'abort', 'reenter', 'setdut', 'cbreenter', 'abort_runif']
+X_MODES = ['ok', 'fail', 'raise', 'hang', 'skip', 'plugfail', 'abort', 'reenter', 'setdut', 'cbreenter', 'abort_runif', 'sysexit']
 
 
 class CbBoom(Exception):
   pass
+
+
+EXPECT_MD = [('c09test', None)]      # (test name, station_id) the current run was configured with
 
 
 def build_test(state):
@@ -54,6 +57,8 @@ def build_test(state):
       return h.PhaseResult.SKIP
     if mode == 'raise':
       raise progs.PhaseBoom('x failed')
+    if mode == 'sysexit':
+      raise SystemExit(2)         # the phase thread dies without a result
     if mode == 'hang':
       progs.CLOCK.hanging.add(threading.current_thread())
       while True:
@@ -111,7 +116,7 @@ def expected_outcome(plan):
   if tsm == 'raise':
     return 'ERROR'
   return {'ok': 'PASS', 'setdut': 'PASS', 'fail': 'FAIL', 'raise': 'ERROR', 'hang': 'TIMEOUT', 'skip': 'PASS',
-          'plugfail': 'ERROR', 'abort': 'ABORTED', 'reenter': 'PASS', 'cbreenter': 'PASS', 'abort_runif': 'ABORTED'}[xm]
+          'plugfail': 'ERROR', 'abort': 'ABORTED', 'reenter': 'PASS', 'cbreenter': 'PASS', 'abort_runif': 'ABORTED', 'sysexit': 'ERROR'}[xm]
 
 
 def check_record(rec, plan, state_at_cb):
@@ -145,8 +150,13 @@ def check_record(rec, plan, state_at_cb):
     if rec.dut_id != want:
       bad.append(('dut-id-value', 'dut_id %r expected %r' % (rec.dut_id, want)))
   md = rec.metadata or {}
-  if md.get('test_name') != 'c09test' or not isinstance(md.get('config'), dict):
-    bad.append(('metadata', 'metadata %r' % ({k: type(v).__name__ for k, v in md.items()},)))
+  want_name, want_station = EXPECT_MD[0]
+  if md.get('test_name') != want_name or not isinstance(md.get('config'), dict):
+    bad.append(('metadata', 'metadata test_name %r (this run was configured as %r), config %s'
+                % (md.get('test_name'), want_name, type(md.get('config')).__name__)))
+  elif md['config'].get('station_id') != want_station:
+    bad.append(('metadata-config', 'metadata config snapshot has station_id %r, the configuration of this run says %r'
+                % (md['config'].get('station_id'), want_station)))
   if state_at_cb is not None and state_at_cb.running_phase_state is not None:
     bad.append(('phase-still-running', 'a phase is still marked running while callbacks run'))
   return bad
@@ -184,7 +194,13 @@ def run_history(hist, raising):
   base_handlers = len(htf_logger.handlers)
   viols = []
   outcomes = []
+  conf = L['conf']
   for run_idx, plan in enumerate(hist):
+    # every run of a history is configured differently: the record must carry *this* run's name and configuration
+    name, station = 'c09test-%d' % run_idx, 'station-%d' % run_idx
+    test.configure(name=name)
+    conf.load(station_id=station)
+    EXPECT_MD[0] = (name, station)
     state['plan'] = plan
     del state['log'][:]
     del calls[:]
@@ -226,6 +242,7 @@ def run_history(hist, raising):
     if len(htf_logger.handlers) != base_handlers:
       viols.append(('handler-leak', '%s: openhtf logger has %d handlers, %d before the run'
                     % (tag, len(htf_logger.handlers), base_handlers)))
+  conf.reset()
   return viols, outcomes
 
 
